@@ -549,6 +549,10 @@ func runC01(c *Ctx) {
 	c.rule("R9", "the reply channel registered for a query is made by that registration, never recycled or shared", 2)
 	checkFreshReplyChan(c, lf)
 
+	// ---------------------------------------------------------------- R12
+	c.rule("R12", "a non-pipelined connection matches replies to queries by a per-connection wire id (a surplus reply read while idle is never delivered to the next caller)", 3)
+	checkReuseIdMatch(c, lf)
+
 	// ---------------------------------------------------------------- R10
 	c.rule("R10", "the wire-id counter is a uint16 that advances by one for every id it hands out (an id just released is not handed out again at once)", 2)
 	{
@@ -784,6 +788,12 @@ func checkIdleExclusive(c *Ctx, fns []*ssa.Function, lf *lockFacts) {
 			ok2, why := justified(in, ci.Call.Args[1])
 			if ok2 {
 				c.ok(key, instrPos(in), "connection becomes idle %s", why)
+			} else if c.Prop != "C09" {
+				// Since D21 replies are matched to queries by a per-connection wire id (C01-R12 / C17-R8): a late reply
+				// of an abandoned query that reaches a connection handed out early finds another id registered, the
+				// connection is closed and the new query is retried — whose reply a caller gets no longer depends on
+				// this. "At most one unanswered query per connection" is C09's clause and stays an obligation of C09-R7.
+				c.ok(key, instrPos(in), "early idle hand-back: harmless for this property (replies are matched by wire id, R12); owned by C09-R7")
 			} else {
 				c.fail(key, instrPos(in), "a connection is put back into the idle set while its query may still be unanswered %s: the next caller gets this connection and receives the previous caller's late reply", why)
 			}
